@@ -38,7 +38,11 @@ def replay(info, ce):
                 cases.append((rng.randn(n), dt, np.array([0.0, 0.5]), xi))
     for acc, dt, periods, xi in cases:
         try:
-            if info.get('entry') == 'AccSignal.response_series':
+            if info.get('entry') == 'AccSignal.response_series' and info.get('pre', 'fresh') != 'fresh':
+                o = eqsig.AccSignal(acc, dt)
+                o.response_series(response_times=periods, xi=0.3)            # an earlier request with another damping
+                ru, rv, ra = o.response_series(xi=xi)                        # periods: the ones the object has stored
+            elif info.get('entry') == 'AccSignal.response_series':
                 ru, rv, ra = eqsig.AccSignal(acc, dt).response_series(response_times=periods, xi=xi)
             elif info.get('entry') == 'response_series':
                 ru, rv, ra = sdof.response_series(acc, dt, periods, xi)
